@@ -38,6 +38,9 @@ package manager
 //@ log (*indexReleaser).release
 //@ log (*Manager).lock
 //@ log (*Manager).getIndexesCopy
+//@ log (*Manager).invalidateConverters
+//@ log (*github.com/spq/pkappa2/internal/index/converters.CachedConverter).InvalidateChangedStreams
+//@ log (*github.com/spq/pkappa2/internal/tools/bitmask.LongBitmask).Or
 //@ func (*indexReleaser).release
 //@   requires mgr.usedIndexes != nil
 //@   modifies mgr.usedIndexes
@@ -110,6 +113,8 @@ package manager
 //@   assert before call (*indexReleaser).release#1: own: same_slice(*arg0, existingIndexesReleaser)
 //@   assert before call (*Manager).lock#1: created: same_slice(arg1, createdIndexes)
 //@   ensures pairing: ncalls("(*indexReleaser).release") == 1 && ncalls("(*Manager).lock") == ite(len(createdIndexes) > 0, 1, 0)
+//@   assert before call (*Manager).invalidateConverters#1: changed@C16: arg1 == updatedStreams
+//@   ensures requeue@C16: ncalls("(*Manager).invalidateConverters") == ite(len(createdIndexes) > 0, 1, 0)
 //@   assert before call (*Manager).startTaggingJobIfNeeded#1: next_job: ncalls("(*Manager).getIndexesCopy") == ite(len(mgr.importJobs) >= 1, 1, 0)
 
 //@ func (*Manager).convertStreamJob$4
@@ -416,3 +421,26 @@ package manager
 //@   ensures handle: ncalls("(*Manager).getIndexesCopy") == ite(!old(mgr.converterJobRunning) && mgr.converterJobRunning, 1, 0)
 //@   ensures not_stopped: implies(old(mgr.converterJobRunning), mgr.converterJobRunning)
 //@   loop 1 invariant ncalls("(*Manager).getIndexesCopy") == 0 && mgr.converterJobRunning == old(mgr.converterJobRunning) && !mgr.converterJobRunning
+
+// ---------------------------------------------------------------------------
+// C16: converter output belongs to the stream's current data. Sequential kernel: when an import changed streams
+// (import completion above: invalidateConverters runs exactly when index files were created, with the set of
+// updated streams), every converter is asked to drop its output for exactly these streams, and what it
+// dropped is queued for conversion again; attaching a converter to a tag queues the tag's matches.
+// (That the queued work is eventually done, and races with a converter job that is running, are matters of
+// schedules and are not decided here.)
+// ---------------------------------------------------------------------------
+//@ func (*Manager).invalidateConverters
+//@   prop C16
+//@   nosafety
+//@   noframe
+//@   assert before call (*github.com/spq/pkappa2/internal/index/converters.CachedConverter).InvalidateChangedStreams#1: changed: arg1 == updatedStreams
+//@   assert before call (*github.com/spq/pkappa2/internal/tools/bitmask.LongBitmask).Or#1: dropped_queued: ncalls("(*github.com/spq/pkappa2/internal/index/converters.CachedConverter).InvalidateChangedStreams") == ncalls("(*github.com/spq/pkappa2/internal/tools/bitmask.LongBitmask).Or") + 1
+//@   ensures requeued: ncalls("(*github.com/spq/pkappa2/internal/index/converters.CachedConverter).InvalidateChangedStreams") == ncalls("(*github.com/spq/pkappa2/internal/tools/bitmask.LongBitmask).Or")
+//@   loop 1 invariant ncalls("(*github.com/spq/pkappa2/internal/index/converters.CachedConverter).InvalidateChangedStreams") == ncalls("(*github.com/spq/pkappa2/internal/tools/bitmask.LongBitmask).Or")
+
+//@ func (*Manager).attachConverterToTag
+//@   prop C16
+//@   nosafety
+//@   noframe
+//@   ensures queued: implies(isnil(result) && len(tag.converters) != old(len(tag.converters)), ncalls("(*github.com/spq/pkappa2/internal/tools/bitmask.LongBitmask).Or") == 1)
